@@ -105,6 +105,16 @@ MUTANTS = [
     ("restart-max-over-strings", "sopht/utils/restart_sim.py", "iter_num = [int(filename.stem.split(\"_\")[-1]) for filename in Path.cwd().glob(\"sopht_*.h5\")]", "iter_num = [filename.stem.split(\"_\")[-1] for filename in Path.cwd().glob(\"sopht_*.h5\")]", ["C18"]),
     ("grid-constructor-velocity-before-position", RIG, "        self.compute_lag_grid_position_field()\n        self.compute_lag_grid_velocity_field()", "        self.compute_lag_grid_velocity_field()\n        self.compute_lag_grid_position_field()", ["C09", "C18"]),
     ("passive-buffer-allocated-in-default-precision", "sopht/simulator/flow/passive_transport_flow_simulators.py", "self.buffer_scalar_field = np.zeros(self.grid_size, dtype=self.real_t)", "self.buffer_scalar_field = np.zeros(self.grid_size)", ["C01"]),
+    ("multiplicative-filter-loop-drops-last-copy", E3 + "laplacian_filter_3d.py", "            laplacian_filter_3d_z(filter_flux=filter_flux_buffer, field=field_buffer)\n            elementwise_copy_3d(field=field_buffer, rhs_field=filter_flux_buffer)\n\n        elementwise_saxpby_3d(",
+     "            laplacian_filter_3d_z(filter_flux=filter_flux_buffer, field=field_buffer)\n\n        elementwise_saxpby_3d(", ["C13", "C19", "C01", "C14"]),
+    ("greens-2d-self-cell-through-distance-guard", P2 + "UnboundedPoissonSolverPYFFTW2D.py", "greens_function_field[0, 0] = -(", "greens_function_field[even_reflected_distance_field < self.dx] = -(", ["C03"]),
+    ("penalised-velocity-y-overwrites", E3 + "update_vorticity_from_velocity_forcing_3d.py", "        vorticity_field_y[0, 0, 0] @= vorticity_field_y[0, 0, 0] + prefactor * (", "        vorticity_field_y[0, 0, 0] @= prefactor * (", ["C05", "C12", "C13"], -1),
+    ("interp-3d-scalar-accumulates", IB + "EulerianLagrangianGridCommunicator3D.py", "            lag_grid_field[i] = np.sum(", "            lag_grid_field[i] += np.sum(", ["C06", "C07"]),
+    ("fastdiag-3d-solution-accumulated", P3 + "FastDiagPoissonSolver3D.py", "        solution_field[...] = np.tensordot(self.eig_vecs_z, self.spectral_field_buffer, axes=(1, 0))", "        solution_field[...] += np.tensordot(self.eig_vecs_z, self.spectral_field_buffer, axes=(1, 0))", ["C11", "C18"]),
+    ("advection-2d-y-back-upwind-tie", E2 + "advection_flux_2d.py", "            if velocity_y[0, 0] > -velocity_y[-1, 0]", "            if velocity_y[0, 0] >= -velocity_y[-1, 0]", ["C13", "C04"]),
+    ("io-registration-detaches-copy", "sopht/utils/io.py", "            self.eulerian_fields[field_name] = field", "            self.eulerian_fields[field_name] = np.asarray(field, dtype=self.real_dtype)", ["C17", "C18"]),
+    ("heaviside-3d-blend-guard-inclusive", E3 + "char_func_from_level_set_3d.py", "            if abs(level_set_field[0, 0, 0]) > blend_width", "            if abs(level_set_field[0, 0, 0]) >= blend_width", ["C19", "C13"]),
+    ("interaction-flow-velocity-conditional-copy", IBFI, "self.eul_grid_velocity_field = eul_grid_velocity_field.view()", "self.eul_grid_velocity_field = eul_grid_velocity_field.astype(real_t, copy=False).view()", ["C10"]),
 ]
 
 # behaviour-preserving edits: every listed check must stay silent
@@ -148,6 +158,7 @@ CONTROLS = [
     ("restart-locals-renamed", "sopht/utils/restart_sim.py", '    # find latest saved data\n    iter_num = [int(filename.stem.split("_")[-1]) for filename in Path.cwd().glob("sopht_*.h5")]\n\n    if len(iter_num) == 0:\n        msg = "There is no file to load in the directory."\n        raise FileNotFoundError(msg)\n\n    latest = max(iter_num)\n    # load sopht data\n    curr_time = io.load(h5_file_name=f"sopht_{latest:04d}.h5")\n    rod_io.load(h5_file_name=f"rod_{latest:04d}.h5")\n    forcing_io.load(h5_file_name=f"forcing_grid_{latest:04d}.h5")\n    rod_time = ea.load_state(restart_simulator, restart_dir, True)\n\n    if curr_time != rod_time:\n        msg = "Simulation time of the flow is not matched with the Elastica, check your inputs!"\n        raise ValueError(msg)\n    logger.info("sopht_%04d.h5 has been loaded", latest)\n\n    return curr_time\n', '    # find newest saved data\n    indices = [int(filename.stem.split("_")[-1]) for filename in Path.cwd().glob("sopht_*.h5")]\n\n    if len(indices) == 0:\n        msg = "There is no file to load in the directory."\n        raise FileNotFoundError(msg)\n\n    newest = max(indices)\n    # load sopht data\n    flow_time = io.load(h5_file_name=f"sopht_{newest:04d}.h5")\n    rod_io.load(h5_file_name=f"rod_{newest:04d}.h5")\n    forcing_io.load(h5_file_name=f"forcing_grid_{newest:04d}.h5")\n    body_time = ea.load_state(restart_simulator, restart_dir, True)\n\n    if flow_time != body_time:\n        msg = "Simulation time of the flow is not matched with the Elastica, check your inputs!"\n        raise ValueError(msg)\n    logger.info("sopht_%04d.h5 has been loaded", newest)\n\n    return flow_time\n', ["C18"]),
     ("statement-between-position-and-velocity-refresh", IBFI, "        self.forcing_grid.compute_lag_grid_position_field()\n        self.forcing_grid.compute_lag_grid_velocity_field()\n        self.compute_interaction_forcing(",
      "        self.forcing_grid.compute_lag_grid_position_field()\n        num_markers = self.forcing_grid.num_lag_nodes\n        self.forcing_grid.compute_lag_grid_velocity_field()\n        self.compute_interaction_forcing(", ["C09", "C10", "C18"]),
+    ("interaction-flow-velocity-plain-reference", IBFI, "self.eul_grid_velocity_field = eul_grid_velocity_field.view()", "self.eul_grid_velocity_field = eul_grid_velocity_field[...]", ["C10", "C18"]),
 ]
 
 
